@@ -193,11 +193,14 @@ func commonTypeFamily() *core.Family {
 	}
 }
 
-// (b2) common types spread over two namespaces: an unqualified reference inside NS
-// resolves to NS::T if declared there and otherwise falls back to the top-level T, so a
-// cycle can cross the namespace boundary through either spelling.
+// (b2) common types spread over three namespaces (top level, A, and the NESTED A::B): an
+// unqualified reference resolves to the type of the current namespace if declared there and
+// otherwise falls back to the top level - never to an ancestor namespace - and a qualified
+// reference is resolved in the namespace it names; a cycle (or a dangling name captured by
+// the wrong namespace) can cross the boundaries through either spelling.
 func commonTypeNamespaceFamily() *core.Family {
-	opts := 1 + 3*3
+	nsNames := []types.Path{"", "A", "A::B"}
+	opts := 1 + 3*4
 	mk := func(o int) (sast.IsType, string) {
 		if o == 0 {
 			return sast.Long(), "Long"
@@ -208,15 +211,17 @@ func commonTypeNamespaceFamily() *core.Family {
 		case 0:
 			return sast.Type(types.Path(tn)), tn
 		case 1:
-			return sast.Type(types.Path("NS::" + tn)), "NS::" + tn
+			return sast.Type(types.Path("A::" + tn)), "A::" + tn
+		case 2:
+			return sast.Type(types.Path("A::B::" + tn)), "A::B::" + tn
 		}
-		return sast.Set(sast.Type(types.Path(tn))), "Set<" + tn + ">"
+		return sast.RecordType{"x": sast.Attribute{Type: sast.Type(types.Path(tn))}}, "{x: " + tn + "}"
 	}
 	per := opts * opts * opts
-	n := int64(8 * per)
+	n := int64(27 * per)
 	return &core.Family{
 		Name:       "common-types-across-namespaces",
-		Desc:       fmt.Sprintf("every placement of three common types in {top level, namespace NS} (8) x all %d assignments of bodies {Long, Tj, NS::Tj, Set<Tj>}: cycles through unqualified references that fall back to the top level, through qualified references, and mixed; used by entities and actions of both namespaces", per),
+		Desc:       fmt.Sprintf("every placement of three common types in {top level, namespace A, nested namespace A::B} (27) x all %d assignments of bodies {Long, Tj, A::Tj, A::B::Tj, {x: Tj}}: cycles and dangling names through unqualified references (current namespace, else top level) and through qualified references into flat and nested namespaces; used by entities and actions of all three namespaces", per),
 		N:          n,
 		Isolated:   true,
 		CrashClass: func(i int64) string { return "common-types-across-namespaces" },
@@ -224,25 +229,38 @@ func commonTypeNamespaceFamily() *core.Family {
 			x := int(i)
 			place := x / per
 			x %= per
-			top := sast.Namespace{CommonTypes: sast.CommonTypes{}, Entities: sast.Entities{}, Actions: sast.Actions{}}
-			ns := sast.Namespace{CommonTypes: sast.CommonTypes{}, Entities: sast.Entities{}, Actions: sast.Actions{}}
+			nss := []sast.Namespace{}
+			for range nsNames {
+				nss = append(nss, sast.Namespace{CommonTypes: sast.CommonTypes{}, Entities: sast.Entities{}, Actions: sast.Actions{}})
+			}
 			var desc []string
+			var where [3]int
 			for k := 0; k < 3; k++ {
 				body, d := mk(x % opts)
 				x /= opts
 				tn := types.Ident("T" + string(names[k]))
-				if place>>k&1 == 1 {
-					ns.CommonTypes[tn] = sast.CommonType{Type: body}
-					desc = append(desc, fmt.Sprintf("NS { type %s = %s }", tn, d))
-				} else {
-					top.CommonTypes[tn] = sast.CommonType{Type: body}
-					desc = append(desc, fmt.Sprintf("type %s = %s", tn, d))
-				}
+				w := place % 3
+				place /= 3
+				where[k] = w
+				nss[w].CommonTypes[tn] = sast.CommonType{Type: body}
+				desc = append(desc, fmt.Sprintf("%s{ type %s = %s }", nsNames[w], tn, d))
 			}
-			top.Entities["E"] = sast.Entity{Shape: sast.RecordType{"f": sast.Attribute{Type: sast.Type("TA")}, "g": sast.Attribute{Type: sast.Type("NS::TB"), Optional: true}}}
-			ns.Entities["F"] = sast.Entity{Shape: sast.RecordType{"f": sast.Attribute{Type: sast.Type("TA")}, "h": sast.Attribute{Type: sast.Set(sast.Type("TC"))}}, Tags: sast.Type("TB")}
-			top.Actions["act"] = sast.Action{AppliesTo: &sast.AppliesTo{Principals: []sast.EntityTypeRef{"E"}, Resources: []sast.EntityTypeRef{"NS::F"}, Context: sast.RecordType{"c": sast.Attribute{Type: sast.Type("TC")}}}}
-			s := &sast.Schema{CommonTypes: top.CommonTypes, Entities: top.Entities, Actions: top.Actions, Namespaces: sast.Namespaces{"NS": ns}}
+			// users: next to each type an entity that names it unqualified, and one top-level entity
+			// that names all three by their qualified names
+			allShape := sast.RecordType{}
+			for k := 0; k < 3; k++ {
+				tn := "T" + string(names[k])
+				w := where[k]
+				nss[w].Entities[types.Ident("U"+string(names[k]))] = sast.Entity{Shape: sast.RecordType{"f": sast.Attribute{Type: sast.Type(types.Path(tn))}}, Tags: sast.Set(sast.Type(types.Path(tn)))}
+				q := tn
+				if nsNames[w] != "" {
+					q = string(nsNames[w]) + "::" + tn
+				}
+				allShape[types.String("f"+string(names[k]))] = sast.Attribute{Type: sast.Type(types.Path(q)), Optional: k == 1}
+			}
+			nss[0].Entities["E"] = sast.Entity{Shape: allShape}
+			nss[0].Actions["act"] = sast.Action{AppliesTo: &sast.AppliesTo{Principals: []sast.EntityTypeRef{"E"}, Resources: []sast.EntityTypeRef{"E"}, Context: allShape}}
+			s := &sast.Schema{CommonTypes: nss[0].CommonTypes, Entities: nss[0].Entities, Actions: nss[0].Actions, Namespaces: sast.Namespaces{"A": nss[1], "A::B": nss[2]}}
 			resolveAndRun(t, "common-types-ns", strings.Join(desc, "; "), s)
 			t.Sample(strings.Join(desc, "; "))
 		},
